@@ -44,6 +44,7 @@ fn reuse_finished(ev: &mut Ev, enc: &'static Encoding, stream: &[u8], l: usize, 
 
 pub fn run(ctx: &Ctx, ev: &mut Ev) {
     let mut drv = Driver::new();
+    if ctx.mode == Mode::Miri { return miri(ctx, ev, &mut drv); }
     let th = ctx.thorough();
     let tiny = ctx.mode == Mode::Miri || ctx.mode == Mode::Vg;
     // (a) systematic tail sweep: every destination length L, every distance k of `written` from the end,
@@ -120,7 +121,7 @@ pub fn run(ctx: &Ctx, ev: &mut Ev) {
     if ctx.want("hist") {
         let sp = DecSpace {
             encs: families(), small_alpha: true, maxlen: if tiny { 2 } else { 3 }, utf16_extra: 1, boms: vec![Bom::Off, Bom::Sniff], sinks: vec![Sink::Str, Sink::String, Sink::U8, Sink::U16], repls: vec![true, false],
-            cap_offsets: vec![vec![0], vec![1], vec![2], vec![3, 0]], last_seps: vec![false], stride: if tiny { 997 } else if th { 1 } else { 2 }, prefixes: vec![], fills: vec![0xFF], token_streams: (0, 0)
+            cap_offsets: vec![vec![0], vec![1], vec![2], vec![3, 0]], last_seps: vec![false], stride: if tiny { 997 } else if th { 1 } else { 2 }, prefixes: vec![], fills: vec![0xFF], token_streams: if tiny { (0, 0) } else { (2, 2) }
         };
         ev.note(format!("hist: {}", sp.describe()));
         enum_dec(ctx, ev, &sp, |case, _ng, ev| {
@@ -170,4 +171,30 @@ pub fn run(ctx: &Ctx, ev: &mut Ev) {
             if i % 16 == 0 { reuse_finished(ev, enc, &stream, 4 + r.below(40), r.below(12)); }
         }
     }
+}
+
+/// Dedicated small workload for the UB interpreter.
+fn miri(ctx: &Ctx, ev: &mut Ev, drv: &mut Driver) {
+    let mut r = ctx.rng(55);
+    let th = ctx.thorough();
+    for _ in 0..(if th { 120 } else { 10 }) {
+        let enc = *r.pick(&[UTF_8, WINDOWS_1252, SHIFT_JIS, UTF_16LE, GB18030, EUC_KR, BIG5, ISO_2022_JP, EUC_JP]);
+        let stream = random_stream(&mut r, enc, 1); let stream = &stream[..stream.len().min(40)];
+        let sink = [Sink::Str, Sink::String, Sink::Str][r.below(3)];
+        let caps = [4 + r.below(20)];
+        let case = DecCase { enc, bom: Bom::Off, sink, repl: r.chance(2), stream, cuts: &[], last_sep: r.chance(2), caps: &caps, fill: 0, src_align: r.below(16), dst_align: r.below(16), filler: r.below(12) };
+        ev.case(); let out = drv.run_dec(&case, ev); judge(ev, &case, &out); ev.nontrivial_hash(case.hash());
+        ev.sample(|| format!("{} -> {}", case.describe(), fmt_calls(&out.calls)));
+    }
+    for i in 0..(if th { 180 } else { 16 }) {
+        let f = [Utf16ToStrPartial, Utf16ToStr, Latin1ToStrPartial, Latin1ToStr][i % 4];
+        let src = gen_src(&mut r, f.src_kind(), 1);
+        let src = Src { bytes: src.bytes[..src.bytes.len().min(40)].to_vec(), units: src.units[..src.units.len().min(40)].to_vec() };
+        let dl = gen_dst_len(&mut r, f, src.len(f));
+        ev.case(); ev.api_calls += 1;
+        let out = drv.run_mem(f, &src, dl, 0, r.below(16), r.below(16), r.below(12));
+        ev.count("validity.mem-str-calls"); ev.nontrivial_hash(H::new().s(f.name()).b(&src.bytes).u16s(&src.units).u(dl as u64).get());
+        if out.panic.is_none() { if let Err(e) = std::str::from_utf8(&out.dst8) { ev.violation("validity", &format!("mem::{}:whole-destination", f.name()), format!("&mut str of {} bytes invalid at {} after the call: {} | {}", dl, e.valid_up_to(), hexs(&out.dst8), src.describe(f))); } }
+    }
+    for _ in 0..(if th { 6 } else { 2 }) { let enc = ALL[r.below(40)]; let s = random_stream(&mut r, enc, 1); reuse_finished(ev, enc, &s[..s.len().min(20)], 4 + r.below(20), r.below(12)); }
 }
